@@ -148,6 +148,25 @@ fn c14_grid(_tier: Tier) -> Vec<Program> {
             }
         }
     }
+    // many size-declared writers open at once (70: more than a small table of slots; 200: more
+    // than a small pool): a writer created among them behaves like any other — here a short one
+    // whose bytes are already stored (its rejected commit must not disturb the stored copy)
+    for fl in [Fl::Sync, Fl::Async] {
+        for crowd in [70u16, 200] {
+            for declare in [Declare::Off(40), Declare::Exact, Declare::None] {
+                let mut w = WriteSpec::simple(Some(0), 0);
+                w.entry = WEntry::Opts;
+                w.chunks = vec![7];
+                w.declare = declare;
+                w.crowd = crowd;
+                out.push(Program {
+                    keys: vec!["among-many".into(), "stored-before".into()],
+                    blobs: vec![Blob::new(300, 1), Blob::new(33, 2)],
+                    steps: vec![Step { op: Op::Write(WriteSpec::simple(Some(1), 0)), fl: Fl::Sync }, Step { op: Op::Write(w), fl }, Step { op: Op::Read { key: 1 }, fl }, Step { op: Op::Read { key: 0 }, fl }],
+                });
+            }
+        }
+    }
     // a writer stays open while 70 000 others are created and dropped in the same process
     // (counters that wrap, tables that fill up): it commits as if nothing had happened
     for fl in [Fl::Sync, Fl::Async] {
